@@ -189,7 +189,7 @@ func acceptSpec(accepts []string) (json, nd, bad bool) {
 
 func TestCheck(t *testing.T) {
 	r := vp.New("C19", "exploration",
-		"result lists: every list of 0..N results over 27 result kinds, plus lists of 8, 16, 40, 200 and 1000 results (responses too large for a declared content length) ({context ID nil/empty/binary} x {metadata nil/empty/binary} x {provider with 0..2 addresses}), written through rwriter (+ProviderResponseWriter) by an in-memory HTTP server and read back by find/client.Find / FindBatch (JSON-preferring server) and raw NDJSON/JSON requests; keys: multihashes of 5 hash functions in base58 and hex, CIDv0/v1 strings; Accept headers: every sequence of <=2 header values over 9 values, both server preferences; 12 request path shapes; apierror: every status 400..599 x 5 messages through EncodeError/DecodeError and FromResponse, bare and inside 5 shapes of error chains (wrapped once / twice, joined first / second, API error wrapping a plain chain). Non-trivial: lists with >=1 result, negotiation/path cases other than the plain JSON request.",
+		"result lists: every list of 0..N results over 27 result kinds, plus lists of 8, 16, 40, 200 and 1000 results (responses too large for a declared content length), plus every ordered pair of kinds and [A,B,A] / [A,A,A] lists about one provider with equal context ID and metadata bytes (exact repeats, results differing only in their addresses) ({context ID nil/empty/binary} x {metadata nil/empty/binary} x {provider with 0..2 addresses}), written through rwriter (+ProviderResponseWriter) by an in-memory HTTP server and read back by find/client.Find / FindBatch (JSON-preferring server) and raw NDJSON/JSON requests; keys: multihashes of 5 hash functions in base58 and hex, CIDv0/v1 strings; Accept headers: every sequence of <=2 header values over 9 values, both server preferences; 12 request path shapes; apierror: every status 400..599 x 5 messages through EncodeError/DecodeError and FromResponse, bare and inside 5 shapes of error chains (wrapped once / twice, joined first / second, API error wrapping a plain chain). Non-trivial: lists with >=1 result, negotiation/path cases other than the plain JSON request.",
 		"the find client sends no Accept header, so client read-back is checked against a server created with WithPreferJson(true); the strict server is checked with raw requests",
 		"nil and empty context ID / metadata are equal (the JSON encoding omits both)",
 		"a key that is both valid base58 and valid hex is only required not to decode to a different valid multihash",
@@ -252,10 +252,23 @@ func TestCheck(t *testing.T) {
 		}
 		lists = append(lists, l)
 	}
+	// lists whose results are about the same provider and carry the same
+	// context ID and metadata bytes wherever their kinds agree (a value store
+	// hands back what was stored: exact repeats, the same provider with other
+	// addresses, the same value again after another one): every ordered pair
+	// of kinds, and [A, B, A] for a diagonal
+	nPositional := len(lists)
+	for i := range kinds {
+		for j := range kinds {
+			lists = append(lists, []int{i, j})
+		}
+		lists = append(lists, []int{i, (i + 5) % len(kinds), i}, []int{i, i, i})
+	}
 	r.Bounds(map[string]any{"result_kinds": len(kinds), "result_lists": len(lists)})
 
 	// 1. read-back of every result list
-	for _, l := range lists {
+	for li, l := range lists {
+		sameInstance := li >= nPositional
 		var names []string
 		for _, i := range l {
 			names = append(names, kinds[i].String())
@@ -264,12 +277,18 @@ func TestCheck(t *testing.T) {
 		if len(l) > 6 {
 			key = fmt.Sprintf("list|long-%d-results", len(l))
 		}
+		if sameInstance {
+			key = "list-same-provider-and-values|" + strings.Join(names, ",")
+		}
 		if !r.Mine(key) {
 			continue
 		}
 		r.Eval(key, len(l) > 0)
 		var want []model.ProviderResult
 		for j, i := range l {
+			if sameInstance {
+				j = 0
+			}
 			want = append(want, kinds[i].build(j))
 		}
 		srv.results, srv.preferJSON, srv.panicked = want, true, ""
